@@ -121,7 +121,23 @@ type Case struct {
 	GateValue string `json:"gate_value,omitempty"`
 
 	Assertion AssertionSpec `json:"assertion"`
+
+	// Seq: earlier presentations to the SAME long-lived Middleware / codec / handler,
+	// in this order, each at its own clock position (the clock may also go back), each
+	// judged on its own; then the presentation described by Mut / OffMs follows.
+	Seq []Pres `json:"seq,omitempty"`
 }
+
+// Pres is one earlier presentation: the unmodified minted token ("original") or
+// the very string that is presented in the end ("same"), at mint instant + OffMs.
+type Pres struct {
+	What  string `json:"what"`
+	OffMs int64  `json:"off_ms"`
+}
+
+// timeRelative mutations embed instants relative to the final presentation; for
+// them an earlier "same" presentation is replaced by the original token.
+var timeRelative = map[string]bool{"claim-exp": true, "claim-nbf": true, "claim-window": true, "open-window": true, "open-iat-future": true, "open-exp": true}
 
 type verdict int
 
@@ -382,6 +398,13 @@ func gen(t *rapid.T) Case {
 		}
 	}
 	c.OffMs = genClock(t, c.MaxAgeMs, c.Clock)
+	if rapid.IntRange(0, 2).Draw(t, "withseq") == 0 {
+		n := rapid.IntRange(1, 3).Draw(t, "nseq")
+		for i := 0; i < n; i++ {
+			cls := rapid.SampledFrom([]string{"inside-early", "inside-mid", "inside-mid", "inside-late", "before-2s", "before-far", "after-2s", "after-far", "iat-boundary", "exp-boundary"}).Draw(t, "seqclock")
+			c.Seq = append(c.Seq, Pres{What: rapid.SampledFrom([]string{"original", "original", "same"}).Draw(t, "seqwhat"), OffMs: genClock(t, c.MaxAgeMs, cls)})
+		}
+	}
 
 	// attribute gate
 	if rapid.IntRange(0, 2).Draw(t, "gated") == 0 {
@@ -829,6 +852,7 @@ func check(c Case) (res pbt.Result) {
 		res.Err = "minting failed: " + err.Error()
 		return res
 	}
+	origTok := tok
 	h, cl, sg, ok := splitTok(tok)
 	if !ok {
 		res.Err = fmt.Sprintf("minted token does not have three segments: %q", tok)
@@ -1135,19 +1159,49 @@ func check(c Case) (res pbt.Result) {
 	if m := c.Conf.CookieMaxAgeMs; m > 0 && m < admitUntil {
 		admitUntil = m
 	}
-	inside := c.OffMs > 1_000 && c.OffMs < admitUntil-1_000
-	outside := c.OffMs < -1_000 || c.OffMs > c.MaxAgeMs+1_000
-	switch {
-	case v == mustAdmit && outside:
-		v = mustRefuse
-	case v == mustAdmit && !inside:
-		v = dontCare
-	case v == dontCare && outside && c.Mut != "open-exp" && c.Mut != "open-iat-future" && c.Mut != "open-window":
-		v = mustRefuse
+	clockVerdict := func(v0 verdict, off int64, timeOpen bool) verdict {
+		inside := off > 1_000 && off < admitUntil-1_000
+		outside := off < -1_000 || off > c.MaxAgeMs+1_000
+		switch {
+		case v0 == mustAdmit && outside:
+			return mustRefuse
+		case v0 == mustAdmit && !inside:
+			return dontCare
+		case v0 == dontCare && outside && !timeOpen:
+			return mustRefuse
+		}
+		return v0
+	}
+	vBase := v
+	v = clockVerdict(vBase, c.OffMs, c.Mut == "open-exp" || c.Mut == "open-iat-future" || c.Mut == "open-window")
+	vOrig := mustAdmit
+	if c.Base == "tracking" {
+		vOrig = mustRefuse
 	}
 
-	// ---- present, on ONE long-lived handler value: warm-up requests first
+	// ---- present, on ONE long-lived handler value: earlier presentations of the same
+	// token strings at other clock positions first, each judged on its own
 	dr := newDriver(d, c)
+	type seqObs struct {
+		p    Pres
+		v    verdict
+		ob   observed
+		open bool
+	}
+	var seq []seqObs
+	for _, p := range c.Seq {
+		so := seqObs{p: p}
+		fix.SetNow(t0.Add(time.Duration(p.OffMs) * time.Millisecond))
+		if p.What == "same" && !timeRelative[c.Mut] {
+			so.v, so.open = clockVerdict(vBase, p.OffMs, false), inf.kind == "open"
+			so.ob = dr.present(presentName, tok, c.Assertion)
+		} else {
+			so.p.What = "original"
+			so.v = clockVerdict(vOrig, p.OffMs, false)
+			so.ob = dr.present(d.name, origTok, c.Assertion)
+		}
+		seq = append(seq, so)
+	}
 	warmSpec := AssertionSpec{Subject: "nameid", NameID: "warm-user", Statements: [][]Attr{{{Name: "groups", Values: []string{"admin", "root"}}}}, SessionIndexes: []string{"warm-idx"}}
 	if c.Gate == "attr" {
 		warmSpec.Statements = append(warmSpec.Statements, []Attr{{Name: c.GateName, Values: []string{c.GateValue}}})
@@ -1236,6 +1290,12 @@ func check(c Case) (res pbt.Result) {
 	if len(c.Conf.Warm) > 0 || c.Conf.After {
 		res.Classes = append(res.Classes, "sequence:warm-or-after")
 	}
+	for _, so := range seq {
+		res.Classes = append(res.Classes, "sequence:earlier-"+so.p.What+":"+so.v.String())
+		if so.v == mustAdmit && v == mustRefuse && so.p.What == "original" && c.Mut == "none" {
+			res.Classes = append(res.Classes, "sequence:same-string-valid-then-refused")
+		}
+	}
 	if strings.HasPrefix(c.Mut, "claim-") && (c.MutArg == "own-other" || c.MutArg == "root-url" || c.MutArg == "entity-id" || c.MutArg == "acs-url" || c.MutArg == "metadata-url") {
 		res.Classes = append(res.Classes, "near:other-identifier-of-same-deployment")
 	}
@@ -1276,10 +1336,6 @@ func check(c Case) (res pbt.Result) {
 	res.NonTrivial = (c.Mut != "none" || c.Base == "tracking") || nearBoundary || repeated || friendless
 
 	// ---- judge
-	if ob.panicV != nil {
-		res.Err = fmt.Sprintf("middleware panicked while handling mutation %s(%s): %v", c.Mut, c.MutArg, ob.panicV)
-		return res
-	}
 	if afterMsg != "" {
 		res.Err = afterMsg
 		return res
@@ -1298,58 +1354,69 @@ func check(c Case) (res pbt.Result) {
 			res.Classes = append(res.Classes, "gate:closed")
 		}
 	}
-	switch v {
-	case mustRefuse:
-		if ob.ran {
-			res.Err = fmt.Sprintf("application handler ran for a request that must not be authenticated: base=%s mutation=%s(%q) clock=%s (offset %d ms, lifetime %d ms); it saw subject %q", c.Base, c.Mut, c.MutArg, c.Clock, c.OffMs, c.MaxAgeMs, ob.subject)
+	judgeOne := func(v verdict, ob observed, open bool, what string, off int64) string {
+		desc := fmt.Sprintf("base=%s mutation=%s(%q) presented=%s at offset %d ms (lifetime %d ms)", c.Base, c.Mut, c.MutArg, what, off, c.MaxAgeMs)
+		if ob.panicV != nil {
+			return fmt.Sprintf("middleware panicked: %s: %v", desc, ob.panicV)
 		}
-		return res
-	case mustAdmit:
-		if c.Gate == "attr" && !gateOpen {
+		switch v {
+		case mustRefuse:
 			if ob.ran {
-				res.Err = fmt.Sprintf("RequireAttribute(%q,%q) admitted a session whose assertion gives %q = %q", c.GateName, c.GateValue, c.GateName, ref[c.GateName])
+				return fmt.Sprintf("application handler ran for a request that must not be authenticated: %s clock=%s; it saw subject %q", desc, c.Clock, ob.subject)
 			}
-			return res
+			return ""
+		case mustAdmit:
+			if c.Gate == "attr" && !gateOpen {
+				if ob.ran {
+					return fmt.Sprintf("RequireAttribute(%q,%q) admitted a session whose assertion gives %q = %q", c.GateName, c.GateValue, c.GateName, ref[c.GateName])
+				}
+				return ""
+			}
+			if !ob.ran {
+				return fmt.Sprintf("a legitimate session token was not admitted: %s: status %d", desc, ob.status)
+			}
+		default:
+			if !ob.ran {
+				return ""
+			}
+			if c.Gate == "attr" && !gateOpen && !open {
+				return fmt.Sprintf("RequireAttribute(%q,%q) admitted a session whose assertion gives %q = %q", c.GateName, c.GateValue, c.GateName, ref[c.GateName])
+			}
+			if open {
+				return ""
+			}
 		}
-		if !ob.ran {
-			res.Err = fmt.Sprintf("a legitimate session token (mutation %s) presented %d ms after minting (lifetime %d ms) was not admitted: status %d", c.Mut, c.OffMs, c.MaxAgeMs, ob.status)
-			return res
+		// admitted with a token of this assertion: what the application sees must be the assertion's
+		if !ob.typeOK {
+			return "SessionFromContext did not return a session with attributes"
 		}
-	default:
-		if !ob.ran {
-			return res
+		if ob.subject != refSubject(c.Assertion) {
+			return fmt.Sprintf("application saw subject %q, assertion says %q (%s)", ob.subject, refSubject(c.Assertion), desc)
 		}
-		if c.Gate == "attr" && !gateOpen && inf.kind != "open" {
-			res.Err = fmt.Sprintf("RequireAttribute(%q,%q) admitted a session whose assertion gives %q = %q", c.GateName, c.GateValue, c.GateName, ref[c.GateName])
-			return res
+		if d := diffAttrs(ref, ob.attrs); d != "" {
+			return "attributes seen by the application differ from the assertion's: " + d
 		}
-		if inf.kind == "open" {
+		var names []string
+		for k := range ref {
+			names = append(names, k)
+		}
+		sort.Strings(names)
+		for _, k := range names {
+			if ob.first[k] != ref[k][0] {
+				return fmt.Sprintf("AttributeFromContext(%q) = %q, the assertion's first value is %q", k, ob.first[k], ref[k][0])
+			}
+		}
+		return ""
+	}
+	for i, so := range seq {
+		if msg := judgeOne(so.v, so.ob, so.open, so.p.What, so.p.OffMs); msg != "" {
+			res.Err = fmt.Sprintf("earlier presentation %d of %d on the same middleware: %s", i+1, len(seq), msg)
 			return res
 		}
 	}
-	// admitted with a token of this assertion: what the application sees must be the assertion's
-	if !ob.typeOK {
-		res.Err = "SessionFromContext did not return a session with attributes"
-		return res
-	}
-	if ob.subject != refSubject(c.Assertion) {
-		res.Err = fmt.Sprintf("application saw subject %q, assertion says %q", ob.subject, refSubject(c.Assertion))
-		return res
-	}
-	if d := diffAttrs(ref, ob.attrs); d != "" {
-		res.Err = "attributes seen by the application differ from the assertion's: " + d
-		return res
-	}
-	var names []string
-	for k := range ref {
-		names = append(names, k)
-	}
-	sort.Strings(names)
-	for _, k := range names {
-		if ob.first[k] != ref[k][0] {
-			res.Err = fmt.Sprintf("AttributeFromContext(%q) = %q, the assertion's first value is %q", k, ob.first[k], ref[k][0])
-			return res
-		}
+	res.Err = judgeOne(v, ob, inf.kind == "open", "final", c.OffMs)
+	if res.Err != "" && len(seq) > 0 {
+		res.Err = fmt.Sprintf("after %d earlier presentation(s) on the same middleware: %s", len(seq), res.Err)
 	}
 	return res
 }
@@ -1572,6 +1639,44 @@ func enumMutants(_ string, emit func(Case)) {
 				c.Base, c.Mut, c.Clock = "session", "none", "inside-mid"
 				emit(c)
 			}
+			// ---- the SAME token string at several clock positions on one long-lived middleware
+			for _, maxAge := range []int64{3_600_000, 5_000} {
+				o := func(cls string) int64 { return off(cls, maxAge) }
+				for _, sq := range []struct {
+					seq  []string
+					last string
+				}{
+					{[]string{"inside-mid"}, "after-2s"}, {[]string{"inside-mid"}, "after-far"}, {[]string{"inside-early", "inside-late"}, "after-2s"},
+					{[]string{"before-2s", "inside-mid"}, "after-far"}, {[]string{"inside-mid"}, "before-2s"}, {[]string{"inside-mid", "after-far"}, "before-far"},
+					{[]string{"after-far"}, "inside-mid"}, {[]string{"before-far"}, "inside-mid"}, {[]string{"after-2s", "inside-mid", "after-2s"}, "inside-late"},
+					{[]string{"inside-mid", "inside-mid"}, "inside-mid"}, {[]string{"inside-mid", "exp-boundary"}, "after-2s"},
+				} {
+					for _, mut := range []string{"none", "resign-same"} {
+						c := base
+						c.Base, c.Mut, c.MaxAgeMs, c.Clock, c.OffMs = "session", mut, maxAge, sq.last, o(sq.last)
+						for _, cls := range sq.seq {
+							c.Seq = append(c.Seq, Pres{What: "same", OffMs: o(cls)})
+						}
+						emit(c)
+						c.Gate, c.GateName, c.GateValue = "attr", "groups", "admin"
+						emit(c)
+					}
+				}
+			}
+			// ---- every mutant presented after its valid original (and the original again after it)
+			for _, mut := range mutNames {
+				inf := catalogue[mut]
+				if inf.kind == "legit" || (inf.keys != "" && inf.keys != keyKind(key)) {
+					continue
+				}
+				c := base
+				c.Base, c.Mut, c.Clock, c.OffMs = "session", mut, "inside-mid", off("inside-mid", base.MaxAgeMs)
+				if len(inf.args) > 0 {
+					c.MutArg = inf.args[len(inf.args)-1]
+				}
+				c.Seq = []Pres{{What: "original", OffMs: off("inside-early", base.MaxAgeMs)}, {What: "same", OffMs: off("inside-mid", base.MaxAgeMs)}, {What: "original", OffMs: off("after-2s", base.MaxAgeMs)}}
+				emit(c)
+			}
 			// ---- one long-lived middleware: another user's valid session before and after
 			for _, cls := range clockClasses {
 				c := base
@@ -1643,6 +1748,7 @@ var prop = &pbt.Prop[Case]{
 		"'this SP's session codec' is the CONFIGURED one: tokens under the library-default algorithm, or carrying the root URL / entity ID / ACS URL / the deployment's issuer where its configured audience belongs, are foreign; with audience and issuer both configured explicitly a second deployment at another URL is indistinguishable and not generated",
 		"a token is expired after the codec's MaxAge; if the cookie provider's MaxAge is shorter, instants between the two are not judged",
 		"every case may serve warm-up requests (another user's valid token, garbage, a tracking token, no cookie) on the same Middleware and handler value before the judged request and another user's token after it; those must see their own identity and must not change the judged verdict",
+		"a case may present the same token string (or the unmodified original) several times to one Middleware / codec / handler at different clock positions, also going back in time; every presentation is judged on its own by the same rules",
 		"a re-signed token whose nbf/iat/exp all differ is refused while now < nbf or now > exp; strictly inside it is not judged (only the key holder can make it)",
 	},
 }
